@@ -10,7 +10,8 @@ for f in sorted(glob.glob(os.path.join(ROOT, "evidence", "C*.json"))):
     e = json.load(open(f))
     if e.get("tier") != "quick":
         continue
-    base[e["property_id"]] = {"obligations": e["coverage"]["obligations"]}
+    base[e["property_id"]] = {"obligations": e["coverage"]["obligations"],
+                              "core_obligations": e["coverage"].get("core_obligations", 0)}
     for k, v in (e["coverage"].get("lock_sets_at_access_sites") or {}).items():
         locks[k] = v
 json.dump(base, open(os.path.join(ROOT, "baseline_obligations.json"), "w"), indent=1)
